@@ -143,6 +143,8 @@ struct Case {
     reader: ReaderSpec,
     consumer: Consumer,
     via_real_file: bool,
+    /// with via_real_file: the path is a FIFO (metadata length 0) fed by a helper thread
+    via_fifo: bool,
 }
 
 #[derive(Clone, Debug)]
@@ -183,6 +185,7 @@ struct Outcome {
     used_nth: bool,
     used_count: bool,
     used_fold: bool,
+    used_fifo: bool,
     /// after a hard read error: did the parser deliver an error item (at all / not at the failing call itself)?
     failure_reported: bool,
     failure_reported_late: bool,
@@ -224,7 +227,7 @@ fn run_case(case: &Case, scratch: Option<&Path>) -> Outcome {
     let mut out = Outcome {
         violation: None, trace: vec![], stats: ReadStats::default(), items: 0, delivered_ok: 0, delivered_err: 0,
         hard_fired_at_call: None, rows_after_hard_error: 0, of_which_not_in_file: 0, max_error_line: 0, asked_after_none: 0,
-        line_longer_than_buffer: data.split(|b| *b == b'\n').any(|l| l.len() > 8192), longest_line: data.split(|b| *b == b'\n').map(|l| l.len() + 1).max().unwrap_or(0), used_nth: false, used_count: false, used_fold: false, failure_reported: false, failure_reported_late: false, history_hash: 0,
+        line_longer_than_buffer: data.split(|b| *b == b'\n').any(|l| l.len() > 8192), longest_line: data.split(|b| *b == b'\n').map(|l| l.len() + 1).max().unwrap_or(0), used_nth: false, used_count: false, used_fold: false, used_fifo: false, failure_reported: false, failure_reported_late: false, history_hash: 0,
     };
     let max_calls = expected.len() + 8;
     let mut hh = hash_bytes(&data);
@@ -233,7 +236,30 @@ fn run_case(case: &Case, scratch: Option<&Path>) -> Outcome {
     let mut via_file: Option<CsvLineParser<std::fs::File, PrecisDerivedProperty>> = None;
     let mut via_sim: Option<CsvLineParser<SimReader, PrecisDerivedProperty>> = None;
     let mut tmp_path: Option<PathBuf> = None;
-    if case.via_real_file {
+    let mut fifo_writer: Option<std::thread::JoinHandle<()>> = None;
+    if case.via_real_file && case.via_fifo {
+        // from_path over a path whose metadata says "0 bytes" although data will come: a FIFO, as
+        // with /dev/stdin or a shell process substitution. The bytes are written by a helper
+        // thread and the pipe is then closed; what the parser delivers does not depend on timing.
+        let p = scratch.unwrap_or(Path::new("/verif/build/tmp")).join(format!("c17-{}.fifo", std::process::id()));
+        let _ = std::fs::create_dir_all(p.parent().unwrap());
+        let _ = std::fs::remove_file(&p);
+        let ok = std::process::Command::new("mkfifo").arg(&p).status().map(|s| s.success()).unwrap_or(false);
+        if ok {
+            let (p2, d2) = (p.clone(), data.to_vec());
+            fifo_writer = Some(std::thread::spawn(move || {
+                if let Ok(mut f) = std::fs::OpenOptions::new().write(true).open(&p2) {
+                    let _ = std::io::Write::write_all(&mut f, &d2);
+                }
+            }));
+            via_file = Some(CsvLineParser::from_path(&p).expect("HARNESS: from_path failed on a fifo just created"));
+            tmp_path = Some(p);
+            out.used_fifo = true;
+            drop(rdr);
+        } else {
+            via_sim = Some(CsvLineParser::from_reader(rdr));
+        }
+    } else if case.via_real_file {
         let p = scratch.unwrap_or(Path::new("/verif/build/tmp")).join(format!("c17-{}.csv", std::process::id()));
         let _ = std::fs::create_dir_all(p.parent().unwrap());
         std::fs::write(&p, &**data).expect("HARNESS: cannot write scratch file");
@@ -499,6 +525,9 @@ fn run_case(case: &Case, scratch: Option<&Path>) -> Outcome {
     out.used_fold = folded.is_some();
     drop(via_sim);
     drop(via_file);
+    if let Some(h) = fifo_writer {
+        let _ = h.join(); // the reader end is closed by now: a writer still blocked gets EPIPE and returns
+    }
     if let Some(p) = tmp_path {
         let _ = std::fs::remove_file(p);
     }
@@ -599,6 +628,7 @@ fn plan_case(seed: u64, idx: u64, tier: &str) -> Case {
             fold_after: if rng.chance(1, 8) { Some(rng.usize_below(6)) } else { None },
         },
         via_real_file,
+        via_fifo: via_real_file && len <= 200_000 && rng.chance(1, 4),
     }
 }
 
@@ -612,6 +642,7 @@ fn case_to_json(c: &Case, trace: &[Dec]) -> Value {
         "consumer": {"extra_after_none": c.consumer.extra_after_none, "stop_at_first_err": c.consumer.stop_at_first_err,
                      "nth_at": c.consumer.nth_at.map(|(a, j)| json!([a, j])), "count_after": c.consumer.count_after, "fold_after": c.consumer.fold_after},
         "via_real_file": c.via_real_file,
+        "via_fifo": c.via_fifo,
     })
 }
 
@@ -629,6 +660,7 @@ fn case_from_json(v: &Value) -> Option<Case> {
             fold_after: v.pointer("/consumer/fold_after").and_then(|x| x.as_u64()).map(|x| x as usize),
         },
         via_real_file: v.get("via_real_file").and_then(|x| x.as_bool()).unwrap_or(false),
+        via_fifo: v.get("via_fifo").and_then(|x| x.as_bool()).unwrap_or(false),
     })
 }
 
@@ -752,6 +784,9 @@ fn worker(seed: u64, from: u64, to: u64, tier: &str, scratch: &Path) -> (Value, 
         }
         if o.used_fold {
             bump("probe_consumer_drained_with_for_each", 1);
+        }
+        if o.used_fifo {
+            bump("probe_from_path_over_a_fifo", 1);
         }
         distinct.insert(o.history_hash);
         if o.stats.split_inside_line > 0 || o.stats.eintr > 0 || o.stats.hard_errors > 0 || case.torn_at.is_some() || ncorrupt > 0 {
